@@ -208,7 +208,7 @@ PROPS = {
                        "x-amz-content-sha256 signed consistently, wrong checksum header / trailer, payload bit flip after signing, chunk / trailer "
                        "signature damaged, decoded length larger / smaller, chunk size larger, body cut short, stream truncated at a chunk boundary, "
                        "bytes after the final chunk) or none. Corrupted => not 2xx and GET / ListParts show exactly the prior state; control => "
-                       "2xx and the stored object is exactly the sent bytes with ETag = MD5 and the new metadata. In-process and real process over TCP. A wrong digest is the digest of other content, or the right digest with one letter's case, its last data bit or a padding bit changed. Further corruptions: an unimplemented streaming type announced, absent chunk signatures, a trailer under another name."),
+                       "2xx and the stored object is exactly the sent bytes with ETag = MD5 and the new metadata. In-process and real process over TCP. A wrong digest is the digest of other content, or the right digest with one letter's case, its last data bit or a padding bit changed. Further corruptions: an unimplemented streaming type announced, absent chunk signatures, a trailer under another name. One case in four has a second, valid upload received completely while the first is half received (in-process, one goroutine: the interleaving is exact); layer S sends generated mixes of valid uploads from 4-16 clients at the same time (runtime schedule, exact oracle: every acknowledged upload reads back as its own bytes, none is refused)."),
         "level_note": "bytes after the terminating chunk are outside the declared payload: accepting them is tolerated as long as the stored object is exactly the payload. Exploration only.",
         "rule": ("case = (config, target, prior, mode, algo, md5?, checksum header?, size, chunks, fragments, corruption, arg, engine). Non-trivial: a "
                  "corruption is present and effective; distinct by the tuple without arg."),
@@ -216,6 +216,7 @@ PROPS = {
         "jobs": [
             {"run": "TestC06A", "quick": 40000, "thorough": 1500000, "shards_quick": 12, "shards_thorough": 16},
             {"run": "TestC06P", "quick": 8000, "thorough": 200000, "shards_quick": 4, "shards_thorough": 16},
+            {"run": "TestC06S", "quick": 24, "thorough": 1200, "shards_quick": 2, "shards_thorough": 4},
         ],
     },
     "C03": {
